@@ -293,24 +293,32 @@ def index_shift(scn, obs, a, before=None):
     orig = list(a['m']['rcpts'])
     raw = []
     meant = set()
+    owned = set()
     for o in obs['store_ops']:
         if o['op'] != 'set_recipients_delivered' or o['t1'] is None or \
                 not o['ok'] or hq._norm(o['id']) != id:
             continue
         if before is not None and o['t1'] > before:
             continue
+        # the attempt whose outcome this call records: the earliest finished
+        # one (by event sequence - with a zero backoff the next attempt may
+        # finish at the same virtual instant) not yet accounted for, whose
+        # settled recipients sit at exactly the indexes passed
         owner = None
         for att in a['attempts']:
-            if att['t1'] is not None and att['t1'] <= o['t0']:
+            if att['end_seq'] is None or att['end_seq'] > o['s0'] or \
+                    att["start_seq"] in owned:
+                continue
+            rel = sorted(i for i, r in enumerate(att['rcpts'])
+                         if (att['truth'] or {}).get(r) in ('ok', 'perm'))
+            if sorted(o["args"]) == rel:
                 owner = att
+                break
         if owner is None:
-            continue
-        rel = sorted(i for i, r in enumerate(owner['rcpts'])
-                     if (owner['truth'] or {}).get(r) in ('ok', 'perm'))
-        if sorted(o['args']) != rel:
             # the queue did not pass the relative indexes of the recipients
-            # this attempt settled: something else is wrong, not this finding
+            # an attempt settled: something else is wrong, not this finding
             return False
+        owned.add(owner["start_seq"])
         raw += list(o['args'])
         for r, t in (owner['truth'] or {}).items():
             if t in ('ok', 'perm'):
